@@ -58,7 +58,7 @@ ModelOutcome(e) ==
     [] OTHER -> Ok(Z(0))
 
 Judge(e) ==
-  (IF e.class \in {"ok", "eof", "error"} THEN {} ELSE {"C10/" \o e.class \o "/" \o e.ep})
+  (IF e.class \in {"ok", "eof", "error", "unconfirmed"} THEN {} ELSE {"C10/" \o e.class \o "/" \o e.ep})
   \cup (IF e.allocKiB <= AllocBoundKiB(e) THEN {} ELSE {"C10/OverAllocation/" \o e.ep})
 
 (* the model says "rejected at once": the real call must not have allocated more than working memory *)
